@@ -201,20 +201,34 @@ fn exec_pure(st: &mut Pure, line: &str, t: &[&str], out: &mut Out) -> String {
     }
 }
 
-pub fn exec(req: &[String], out: &mut Out) {
-    let mut st = Pure { d7: 0, d6: 0 };
+pub fn exec(req: &[String], out: &mut Out, tmpdir: &std::path::Path) {
+    // live sessions (all lines from `C14 new live ..` up to the next session start) run first, a few at a time, each
+    // in a forked worker; their answers are put in place below
+    let mut blocks: Vec<(usize, usize)> = vec![];
     let mut i = 0;
     while i < req.len() {
-        let line = &req[i];
-        let t: Vec<&str> = line.split(' ').filter(|x| !x.is_empty()).collect();
+        let t: Vec<&str> = req[i].split(' ').filter(|x| !x.is_empty()).collect();
         if t.len() >= 3 && t[0] == "C14" && t[1] == "new" && t[2] == "live" {
-            // a live session: all lines up to the next session start run in a forked worker
             let mut j = i + 1;
             while j < req.len() && !req[j].starts_with("C14 new") { j += 1; }
-            live::run_session(&req[i..j], out);
+            blocks.push((i, j));
             i = j;
+        } else { i += 1; }
+    }
+    let sessions: Vec<Vec<String>> = blocks.iter().map(|&(a, b)| req[a..b].to_vec()).collect();
+    let mut done = live::run_live_sessions(&sessions, tmpdir).into_iter();
+    let mut st = Pure { d7: 0, d6: 0 };
+    let mut i = 0;
+    let mut b = 0;
+    while i < req.len() {
+        let line = &req[i];
+        if b < blocks.len() && blocks[b].0 == i {
+            live::account(&req[blocks[b].0..blocks[b].1], done.next().unwrap(), out);
+            i = blocks[b].1;
+            b += 1;
             continue;
         }
+        let t: Vec<&str> = line.split(' ').filter(|x| !x.is_empty()).collect();
         let ans = match t.as_slice() {
             ["C14", "new"] => { st = Pure { d7: 0, d6: 0 }; "ok".to_string() }
             ["C14", rest @ ..] if live::is_live_op(rest) => "no-session".to_string(),
@@ -242,6 +256,6 @@ pub fn run(args: &[String]) {
             r
         }
     };
-    exec(&req, &mut out);
+    exec(&req, &mut out, &a.out);
     out.finish();
 }
